@@ -1016,6 +1016,35 @@ pub fn generate(ctx: &mut Ctx) {
         emit(ctx, &format!("trace:rand{i}"), "trace", &GraphSrc::Rows(g.rows), t);
     }
     // ---- sequential histories ---------------------------------------------------------------
+    // every ordered pair (and a few triples) of questions about odd symbols - the empty symbol as a def, undefined
+    // symbols, a def that lists an undefined supertype - each on a cold namespace of its own: an entry that two
+    // symbols share in a cache shows as an answer that depends on which was asked first
+    {
+        let odd = vec![
+            RowSpec::plain("m", vec![]),
+            RowSpec::plain("", vec![some("m")]),
+            RowSpec::plain("a", vec![some(""), some("zz")]),
+            RowSpec::plain("b", vec![some("a")]),
+        ];
+        let pool: Vec<Q> = vec![
+            Q::Inh(s("")), Q::Sup(s("")), Q::ASup(s("")), Q::Fits(s(""), s("m")), Q::Fits(s("a"), s("")),
+            Q::Inh(s("zz")), Q::Sup(s("zz")), Q::Fits(s("zz"), s("m")), Q::Fits(s("zz"), s("")), Q::Inh(s("nodef")), Q::Fits(s("nodef"), s("nodef")),
+            Q::Inh(s("b")), Q::ASup(s("b")),
+        ];
+        for (i, q1) in pool.iter().enumerate() {
+            for (j, q2) in pool.iter().enumerate() {
+                if i == j {
+                    continue;
+                }
+                let qs = [q1.clone(), q2.clone(), q1.clone(), pool[(i + j) % pool.len()].clone()];
+                let mut t = vec![qs.len().to_string()];
+                for q in &qs {
+                    q.write(&mut t);
+                }
+                emit(ctx, &format!("seq:odd{i}_{j}"), "seq", &GraphSrc::Rows(odd.clone()), t);
+            }
+        }
+    }
     for i in 0..ctx.n(60, 1200) {
         let mut g = c13::gen_graph(&mut rng, 22);
         let kinds = match i % 3 {
